@@ -1,6 +1,8 @@
 """C21 — frame / microframe numbers track received SOFs.
 
-DUT: real USBDevice(bus=UTMIInterface()) with a standard control endpoint.
+DUT: real USBDevice(bus=UTMIInterface()) with a standard control endpoint; 12 MHz full-speed tables or (30 %) the 60 MHz
+tables at full speed.  High speed itself is not entered (the frame logic has no speed input; SOF repeats = microframes
+are generated at full speed as well).
 Workload: sequences of SOFs (repeats up to 10, skips, wrap at 2047), damaged SOFs (CRC5, PID nibble, truncated,
 over-long), other tokens / data / handshakes in between, all rx byte-gap profiles.
 Monitor: samples frame_number / microframe_number / new_frame / sof_detected every cycle.
@@ -14,7 +16,7 @@ PROPERTY = "C21"
 CASES = {"quick": 192, "thorough": 4000}
 RULE = ("case = 40-120 packets: SOF number walk (repeat/skip/wrap/random) with damaged SOFs and foreign packets between; "
         "non-trivial = >=1 repeat, >=1 change and >=1 damaged SOF; distinct = hash of packet list and gap profile")
-REQUIRED_BINS = ["sof_repeat", "sof_change", "sof_wrap", "damaged_sof", "other_packet_between", "microframe_wrap_8", "sof_one_bit_change", "bus_reset", "first_sof_after_bus_reset"]
+REQUIRED_BINS = ["sof_repeat", "sof_change", "sof_wrap", "damaged_sof", "other_packet_between", "microframe_wrap_8", "sof_one_bit_change", "bus_reset", "first_sof_after_bus_reset", "config_fs12", "config_fs60"]
 REQUIRED_EVENTS = ["sof_detected_strobes", "new_frame_strobes", "good_sofs_sent", "cycles_monitored"]
 ASSUMPTIONS = ["across a bus reset the remembered frame/microframe numbers are not specified: the first SOF after a reset may or may not raise new_frame, the microframe number is judged again from the next frame change; strobes outside packets are violations at all times",
                "frame outputs are judged from 3 cycles after the end of each packet until the next packet ends (registration latency is not constrained)",
@@ -41,13 +43,22 @@ def build_device():
 
 def run_case(rng, tier, res):
     dev, utmi = build_device()
-    b = Bench(dev, domain="usb", freq=60e6, max_cycles=60000)
-    gap_profile = rng.choice(["none", "random", "fixed4", "onestall"])
-    host = UTMIHost(b, utmi, rng, timing="fs12", ready_profile="always", gap_profile=gap_profile)
+    # device configuration: the 12 MHz full-speed-only tables (what USBDevice picks for a raw UTMI bus) or the 60 MHz
+    # tables of a ULPI/UTMI PHY run at full speed (token detector and timers are built with other constants)
+    fs60 = rng.random() < 0.3
+    if fs60:
+        dev.always_fs = False
+        dev.data_clock = 60e6
+        res.bin("config_fs60")
+    else:
+        res.bin("config_fs12")
+    b = Bench(dev, domain="usb", freq=60e6, max_cycles=150000)
+    gap_profile = rng.choice(["random", "fixed4"]) if fs60 else rng.choice(["none", "random", "fixed4", "onestall"])
+    host = UTMIHost(b, utmi, rng, timing="fs60" if fs60 else "fs12", ready_profile="always", gap_profile=gap_profile)
     outs = [dev.frame_number, dev.microframe_number, dev.new_frame, dev.sof_detected]
     b.watch(*outs)
-    res.desc = {"gap_profile": gap_profile, "packets": []}
-    res.sig(gap_profile)
+    res.desc = {"gap_profile": gap_profile, "fs60": fs60, "packets": []}
+    res.sig(gap_profile, fs60)
 
     # reference state
     ref = {"frame": 0, "micro": 0}
@@ -136,6 +147,8 @@ def run_case(rng, tier, res):
 
     def driver():
         init_device_signals(b, dev, utmi)
+        if fs60:
+            b.set(dev.full_speed_only, 1)     # stay at full speed across the bus resets of this workload
         yield from host.idle(5)
         frame = rng.choice([0, 0, 1, 2040, rng.randrange(2048)])
         n = rng.randint(40, 120)
